@@ -337,7 +337,38 @@ class Conc:
                 res.append((cl, v))
         return res
 
+    def _closure_accesses(self, fname):
+        """for a closure: which of its free variables (captured by reference) it stores to / loads from, by name"""
+        cache = self.__dict__.setdefault("_closure_acc", {})
+        if fname in cache:
+            return cache[fname]
+        fn = self.ir.funcs.get(fname)
+        w, r = set(), set()
+        if fn is not None:
+            fvs = {v["name"] for v in (fn.get("freevars") or [])}
+            for b in fn["blocks"]:
+                for i in b["instrs"]:
+                    a = i.get("args") or []
+                    if i["op"] == "Store" and a and a[0].get("n") in fvs:
+                        w.add(a[0]["n"])
+                    if i["op"] == "UnOp" and (i.get("aux") or {}).get("op") == "*" and a and a[0].get("n") in fvs:
+                        r.add(a[0]["n"])
+        cache[fname] = (w, r)
+        return cache[fname]
+
     def on_go(self, fr, st, ins, name, args):
+        # a local captured by reference by the spawned closure is shared with that goroutine from here on: the spawner may not
+        # touch it again if the goroutine writes it, nor write it if the goroutine reads it (nothing orders the two)
+        if isinstance(name, str) and name in self.ir.funcs and self.cur is not None and not self.quiet:
+            fn = self.ir.funcs[name]
+            fvs = fn.get("freevars") or []
+            w, r = self._closure_accesses(name)
+            for fv, val in zip(fvs, args):
+                if isinstance(val, PtrV) and isinstance(val.cell, int) and not val.path and (fv["name"] in w or fv["name"] in r):
+                    st.ghost = dict(st.ghost)
+                    shared = dict(st.ghost.get("go_shared") or {})
+                    shared[val.cell] = (fv["name"], fv["name"] in w, short_t(name))
+                    st.ghost["go_shared"] = shared
         d = self.contract_for(name) if isinstance(name, str) else None
         if d is not None:
             try:
@@ -600,7 +631,20 @@ class Conc:
             o.failed.append({"pos": ins.get("pos"), "reason": "%s of field %s without holding %s%s" % (
                 "write" if write else "read", p.path[-1], lname, " in write mode" if write and modes else "")})
 
+    def _check_go_shared(self, fr, st, p, ins, write):
+        sh = st.ghost.get("go_shared")
+        if not sh or self.cur is None or self.quiet or not isinstance(p, PtrV) or p.cell not in sh or fr.fn is not self.cur.get("fn"):
+            return
+        var, gwrites, gname = sh[p.cell]
+        if not (gwrites or write):
+            return
+        o = self.obl("ownership", "goroutine-captured:%s" % var, self.own_props())
+        o.instances += 1
+        o.failed.append({"pos": ins.get("pos"), "reason": "%s of local %s after `go %s`, which captured it by reference and %s it: the two accesses are not ordered (data race)" % (
+            "write" if write else "read", var, gname, "writes" if gwrites else "reads")})
+
     def on_load(self, fr, st, p, ins):
+        self._check_go_shared(fr, st, p, ins, False)
         self._check_guard(fr, st, p, ins, False)
         if isinstance(p, PtrV) and p.path:
             T, obj = self.struct_type_at(p)
@@ -615,6 +659,7 @@ class Conc:
                     pass
 
     def on_store(self, fr, st, p, v, ins):
+        self._check_go_shared(fr, st, p, ins, True)
         self._check_guard(fr, st, p, ins, True)
 
     def on_map_access(self, fr, st, m, ins, write):
